@@ -41,6 +41,7 @@ func ttmlRead(n int, c ttmlCase) ttmlEvent {
 	ev := ttmlEvent{N: n, Dir: "read", G: c.G, D: c.D}
 	ev.Post.Norm()
 	raw := ttmlx.Concretise(c.D, p, n)
+	dumpDoc("ttml", n, raw)
 	ev.Raw = string(raw)
 	var s *astisub.Subtitles
 	var err error
